@@ -54,6 +54,9 @@ func c09Prefix(k ref.CartKind, i int) []c08Ev {
 	return nil
 }
 
+// c09Neighbours: the stores next door (set once at registration: the thorough tier, one level deeper, keeps three of them)
+var c09Neighbours = []c08Ev{{0x8000, 0x3c}, {0x9fff, 0x3c}, {0xc000, 0x3c}, {0xe000, 0x3c}, {0xe001, 0x3c}, {0xfdff, 0x3c}, {0xff80, 0x3c}}
+
 func c09Alphabet(k ref.CartKind, banks int, rtc ...bool) []c08Ev {
 	var evs []c08Ev
 	for _, v := range []uint8{0x0a, 0x00, 0x1a, 0xfa, 0x0b, 0xa0} {
@@ -91,7 +94,7 @@ func c09Alphabet(k ref.CartKind, banks int, rtc ...bool) []c08Ev {
 	}
 	// stores next door that are not the cartridge's: video RAM, work RAM, echo RAM (whose image of the RAM window's
 	// offsets is E000 / FDFF), high RAM: none of them may reach cartridge RAM
-	evs = append(evs, c08Ev{0x8000, 0x3c}, c08Ev{0x9fff, 0x3c}, c08Ev{0xc000, 0x3c}, c08Ev{0xe000, 0x3c}, c08Ev{0xe001, 0x3c}, c08Ev{0xfdff, 0x3c}, c08Ev{0xff80, 0x3c})
+	evs = append(evs, c09Neighbours...)
 	return evs
 }
 
@@ -224,6 +227,7 @@ func init() {
 		depth := 3
 		if c.Thorough() {
 			depth = 4
+			c09Neighbours = []c08Ev{{0x8000, 0x3c}, {0xe000, 0x3c}, {0xfdff, 0x3c}}
 		}
 		type job struct {
 			spec  cartSpec
